@@ -64,6 +64,24 @@ def planted(kind, mode):
         defvjp(f, lambda ans, x: lambda g: anp.dot((W if mode == "rev" else B).T, g))
         defjvp(f, lambda g, ans, x: anp.dot((W if mode == "fwd" else B), g))
         return f, (lambda rng: onp.array([rng.uniform(0.3, 1.2) for _ in range(3)])), None
+    if kind in ("zero-sum-transpose", "zero-sum-permutation", "ok-zero-sum"):
+        # the defect moves entries around without changing their sum (a missing transpose, a missing roll): invisible
+        # to a projection onto a constant vector, visible to a random one
+        if kind == "zero-sum-permutation":
+            @primitive
+            def f(x):
+                return onp.roll(x, 1) * 3.0
+            defvjp(f, lambda ans, x: lambda g: (g if mode == "rev" else anp.roll(g, -1)) * 3.0)
+            defjvp(f, lambda g, ans, x: (g if mode == "fwd" else anp.roll(g, 1)) * 3.0)
+            return f, (lambda rng: onp.array([rng.uniform(0.3, 1.2) for _ in range(4)])), None
+        bad = kind == "zero-sum-transpose"
+
+        @primitive
+        def f(x):
+            return x.T * 3.0
+        defvjp(f, lambda ans, x: lambda g: (g if (bad and mode == "rev") else g.T) * 3.0)
+        defjvp(f, lambda g, ans, x: (g if (bad and mode == "fwd") else g.T) * 3.0)
+        return f, (lambda rng: onp.array([[rng.uniform(0.3, 1.2) for _ in range(3)] for _ in range(3)])), None
     if kind in ("dropped-reduction", "ok-reduction"):
         @primitive
         def f(x):
@@ -223,7 +241,7 @@ def main():
     for kind in ("ok-scalar", "ok-matrix", "ok-reduction", "ok-complex", "factor", "sign", "transpose", "entry",
                  "dropped-reduction", "complex-conj", "ok-second-order", "second-order-factor", "second-order-sign",
                  "second-order-zero", "ok-cross-mode", "cross-mode-factor", "cross-mode-sign", "ok-tangent-helper",
-                 "tangent-helper-factor", "tangent-helper-sign", "nan-entry", "nan-scalar"):
+                 "tangent-helper-factor", "tangent-helper-sign", "nan-entry", "nan-scalar", "ok-zero-sum", "zero-sum-transpose", "zero-sum-permutation"):
         for mode in ("rev", "fwd"):
             for order in (1, 2):
                 f, point, both = planted(kind, mode)
